@@ -1020,3 +1020,88 @@ def _linear(c):
 
 Lemma('C03', 'linear_in_weighted_cross_section', _linear,
       doc='sum_k (a x_k + y_k) p_k = a sum_k x_k p_k + sum_k y_k p_k; zero cross-section gives zero optical depth')
+
+
+# ------------------------------------------------------------------ SimpleForwardModel.model (effect trace): the one evaluation everything else uses
+def _model_post(c, v0, v1, r):
+    comps, wn = _cfg(c, 'comps'), _cfg(c, 'wn')
+    M = len(comps)
+    tr = list(c.trace or [])
+    if c.mode == 'conc':
+        grid_ret, a_ret, t_ret, extra = r
+        native_id, obs_id = 'native', 'obs'
+    else:
+        ret = c.raw['ret']
+        ok_shape = isinstance(ret, tuple) and len(ret) == 4
+        if not ok_shape:
+            return {'returns_grid_depth_tau_none': False}
+        grid_ret, a_ret, t_ret, extra = [x.id if isinstance(x, Ref) else x for x in ret]
+        native_id = v0.self.ref('nativeWavenumberGrid').id
+        wnr = v0.ref('wngrid')
+        obs_id = wnr.id if isinstance(wnr, Ref) else None
+    d = {}
+    clips = [e for e in tr if e[0] == 'clip']
+    d['clip_exactly_when_asked'] = len(clips) == (1 if wn == 'cut' else 0) and all(e[1] == native_id and e[2] == obs_id for e in clips)
+    grid_id = clips[0][3] if clips else native_id
+    seq = [(e[0],) + tuple(e[1:2]) for e in tr if e[0] in ('initialize_profiles', 'star.initialize', 'prepare', 'path_integral')]
+    want = [('initialize_profiles',), ('star.initialize', grid_id)] + [('prepare', k) for k in range(M)] + [('path_integral', tuple(range(M)))]
+    d['order_of_effects'] = [(e[0],) + ((tuple(e[1]),) if e[0] == 'path_integral' else tuple(e[1:])) for e in seq] == want
+    grids = {e[2] for e in tr if e[0] in ('prepare', 'path_integral')} | {e[1] for e in tr if e[0] == 'star.initialize'}
+    d['one_grid_throughout'] = grids <= {grid_id}
+    pis = [e for e in tr if e[0] == 'path_integral']
+    d['returns_grid_depth_tau_none'] = len(pis) == 1 and (grid_ret, a_ret, t_ret, extra) == (grid_id, pis[0][3], pis[0][4], None)
+    return d
+
+
+def _model_native(c, p):
+    import numpy as np
+    from taurex.model.simplemodel import SimpleForwardModel
+    comps, wn = c.values['comps'], c.values['wn']
+    trace, tags = [], {}
+    tag = lambda x: tags.get(id(x), '?')
+
+    class _C:
+        def __init__(self, k):
+            self.k, self.name = k, 'c%d' % k
+
+        def prepare(self, model, grid):
+            trace.append(('prepare', self.k, tag(grid)))
+
+    class _M(SimpleForwardModel):
+        nativeWavenumberGrid = property(lambda self: self._native)
+
+        def initialize_profiles(self):
+            trace.append(('initialize_profiles',))
+
+        def path_integral(self, grid, rc):
+            trace.append(('path_integral', tuple(x.k for x in self.contribution_list), tag(grid), 'A0', 'T0'))
+            return 'A0', 'T0'
+    m = _quiet(_M.__new__(_M))
+    m._native = np.array(p['self']['nativeWavenumberGrid'], dtype=float)
+    tags[id(m._native)] = 'native'
+    m.contribution_list = [_C(k) for k in range(len(comps))]
+    m._star = _NS(initialize=lambda g: trace.append(('star.initialize', tag(g))))
+    obs = None if wn == 'none' else np.array(p['wngrid'], dtype=float)
+    if obs is not None:
+        tags[id(obs)] = 'obs'
+    import taurex.model.simplemodel as mod
+    real = mod.clip_native_to_wngrid
+
+    def clip(a, b):
+        r = real(a, b)
+        tags[id(r)] = 'clipped'
+        trace.append(('clip', tag(a), tag(b), 'clipped'))
+        return r
+    mod.clip_native_to_wngrid = clip
+    try:
+        g, a, t, x = m.model(wngrid=obs, cutoff_grid=p['cutoff_grid'])
+    finally:
+        mod.clip_native_to_wngrid = real
+    return (tag(g), a, t, x), dict(p, __trace__=trace)
+
+
+MODEL = Unit(['C03', 'C13', 'C01'], SM + 'model', _mc_params, post=_model_post, abstract=_MC_ABS, cases=_MC_CASES, bounds=[dict(Wn=3, Wo=2)],
+             native=_model_native, gen=_mc_gen, short='SimpleForwardModel.model',
+             doc='the forward-model evaluation: profiles initialised first, the native grid clipped to the requested grid exactly when '
+                 'asked, the star and every contribution (in list order) prepared on that one grid, ONE path integral over the whole '
+                 'list on that grid, and (grid, depth, tau, None) of that integral returned (0..3 contributions)')
